@@ -1,5 +1,6 @@
 import DaskModel.Model.Creation
 import DaskModel.Lemmas.CreationLemmas
+import DaskModel.Lemmas.CreationFloatLemmas
 import DaskModel.Lemmas.DiagonalLemmas
 import DaskModel.Lemmas.ChunksNormalize
 /-!
@@ -9,7 +10,7 @@ All theorems are over exact integers; rationals with a common denominator reduce
 scaling (see Model/Creation.lean).  Floats are validated against NumPy by harness/props/c34.py.
 -/
 namespace Dask.C34
-open Dask.Chunks Dask.Creation
+open Dask.Chunks Dask.Creation Dask.SoftFloat
 
 /-- **arange_len** (positive step): `num = max(ceil((stop-start)/step), 0)` counts exactly the
     indices whose value is below `stop` — the length of Python's `range`/NumPy's `arange`. -/
@@ -84,6 +85,78 @@ theorem arange_fallback_den (start step : Int) (hs : step ≠ 0) (cs : List Nat)
   apply List.map_congr_left; intro i _; simp
 
 example : arangeValues 10 (-3) [3, 1] = [[10, 7, 4], [1]] := by rfl
+
+/-! ### float `arange` over the exact binary64 model (Model/SoftFloat.lean, Model/CreationFloat.lean)
+
+`arange_den` above already covers binary64: the block lengths and the chunk-invariance of the values hold for *any*
+arithmetic.  What is specific to floats is `num = ceil((stop - start)/step)` computed with three roundings and the
+values `first + i*(second - first)`; dask and NumPy use the same formulas (diffed bit for bit by the harness), and these
+are *not* the exact-arithmetic ones in general (`arange_f_num_not_exact`).  Full statement, false in general:
+`ArangeFExactStatement`.  Proved: the regime in which no operation rounds (`arange_f_exact_partial`). -/
+
+/-- the binary64 plan agrees with exact arithmetic on the same inputs (false in general: `arange_f_num_not_exact`) -/
+def ArangeFExactStatement : Prop :=
+  ∀ (start stop step : F64) (n : Nat), step.m ≠ 0 → arangeNumF start stop step = some n →
+    ∀ e : Int, e ≤ start.e → e ≤ stop.e → e ≤ step.e →
+      arangeNum (start.m * 2 ^ (start.e - e).toNat) (stop.m * 2 ^ (stop.e - e).toNat) (step.m * 2 ^ (step.e - e).toNat) = some n
+
+/-- `np.arange(0.0, 3.4000000000000004, 0.1)` has 34 elements (NumPy and dask alike: the quotient
+    `34.000000000000004…` rounds to `34.0`), exact arithmetic on the same doubles gives 35 -/
+theorem arange_f_num_not_exact :
+    arangeNumF ⟨0, 0⟩ ⟨1914029841632461, -49⟩ ⟨3602879701896397, -55⟩ = some 34
+    ∧ arangeNum 0 (1914029841632461 * 2 ^ 6) 3602879701896397 = some 35 := by decide
+
+theorem arange_f_exact_refuted : ¬ ArangeFExactStatement := by
+  intro h
+  have := h ⟨0, 0⟩ ⟨1914029841632461, -49⟩ ⟨3602879701896397, -55⟩ 34 (by decide) arange_f_num_not_exact.1 (-55)
+    (by decide) (by decide) (by decide)
+  revert this; decide
+
+/-- **arange_f_exact_partial**: `start = a·2^e`, `step = s·2^e`, `stop = start + n·step` with every value of the range
+    below `2^53` in units of `2^e` (dyadic steps, integer-valued doubles, quarters, …): no binary64 operation rounds,
+    so the plan is the unshifted one, `num = n` (not `n + 1`: a `stop` exactly on the grid is excluded), and for every
+    chunking the blocks hold exactly the exact-arithmetic values `(a + i·s)·2^e` of `arange_int_den`. -/
+theorem arange_f_exact_partial (a s e : Int) (n : Nat) (hs : s ≠ 0) (he : -1074 ≤ e)
+    (hb : a.natAbs + (n + 1) * s.natAbs < 2 ^ 53) :
+    (∃ p, arangePlanF ⟨a, e⟩ ⟨a + (n : Int) * s, e⟩ ⟨s, e⟩ = some p ∧ p.shifted = false ∧ p.num = n
+        ∧ p.first = ⟨a, e⟩ ∧ p.second = ⟨a + s, e⟩)
+    ∧ ∀ cs, sum cs = n →
+        (arangeValuesG f64Arith ⟨a, e⟩ ⟨a + s, e⟩ cs).flatten = (arangeSpec a s n).map (fun v => (⟨v, e⟩ : F64))
+        ∧ (arangeValuesG f64Arith ⟨a, e⟩ ⟨a + s, e⟩ cs).map List.length = cs := by
+  have hs1 : 1 ≤ s.natAbs := Int.natAbs_pos.2 hs
+  have hsm : (n + 1) * s.natAbs = n * s.natAbs + s.natAbs := Nat.succ_mul n _
+  have hn1 : n * 1 ≤ n * s.natAbs := Nat.mul_le_mul_left n hs1
+  have hsb : s.natAbs < 2 ^ 53 := by omega
+  have h1 : (a + s).natAbs < 2 ^ 53 := by
+    have := natAbs_lin a s 1 (n + 1) (by omega) hb
+    simpa using this
+  constructor
+  · refine ⟨⟨false, n, ⟨a, e⟩, ⟨a + s, e⟩⟩, ?_, rfl, rfl, rfl, rfl⟩
+    unfold arangePlanF
+    rw [arangeShiftF_exact a s e he h1 hsb, arangeNumF_exact a s e n hs he hb, add_same_exp,
+      roundDy_of_fits _ _ h1 he]
+    simp
+  · intro cs hsum
+    have h := arange_den f64Arith ⟨a, e⟩ ⟨a + s, e⟩ cs
+    refine ⟨?_, h.2⟩
+    rw [h.1, hsum]
+    unfold arangeBlockG arangeSpec
+    rw [List.map_map]
+    apply List.map_congr_left
+    intro i hi
+    have hi' : i < n := List.mem_range.1 hi
+    simp only [Nat.zero_add, Function.comp]
+    exact arangeElem_exact a s e n i he (by omega) (by omega) hb
+
+example : (1 : Int) ≠ 0 ∧ (-1074 : Int) ≤ -1 ∧ (1 : Int).natAbs + (4 + 1) * (1 : Int).natAbs < 2 ^ 53 := by decide
+
+/-- the block plan *before* `fix: da.arange computes every element from its global index`, on
+    `da.arange(2**30 - 3*2**-23, 2**30 + 10*2**-23, 2**-23, chunks=2)`: the declared chunks are `(2,2,2,2,2,2,1)`, the
+    blocks `np.arange(blockstart, blockstop, step)` (bounds rounded to binary64, trimmed by at most one element) had
+    lengths `2,1,3,0,3,0,1` — exactly what the real code returned (computed shape `(10,)` for 13 declared elements) -/
+theorem old_arange_plan_refuted :
+    oldBlockLens ⟨9007199254740989, -23⟩ ⟨1, -23⟩ 0 [2, 2, 2, 2, 2, 2, 1]
+      = [some 2, some 1, some 3, some 0, some 3, some 0, some 1] := by decide
 
 /-- **linspace_den**: for every chunking the blocks have the declared lengths and concatenate to NumPy's
     `arange(num) * step + start` with the last element pinned to `stop` — every element is a function of its
@@ -198,11 +271,11 @@ theorem tri_den (k : Int) (i j : Nat) :
 
 /-- **chunks_sum_shape**: the lazily reported chunks of every creation routine are
     `normalize_chunks(chunks, shape)`, hence add up to the shape (C23 `normalize_sum_nonneg`). -/
-theorem chunks_sum_shape {top shape limit autoRes r} (h : normalize top shape limit autoRes = .ok r)
+theorem chunks_sum_shape {top shape limit autoRes r} (h : Chunks.normalize top shape limit autoRes = .ok r)
     (hne : shape ≠ []) (hauto : ∀ a, autoRes = some a → a.length = shape.length ∧ ∀ c ∈ a, c.isNeg = false) :
     r.length = shape.length ∧ ∀ i (h1 : i < r.length) (h2 : i < shape.length), isum r[i] = (shape[i] : Int) := by
   have H : AllDims DimOK r shape := by
-    unfold normalize at h
+    unfold Chunks.normalize at h
     cases h1 : preNormalize top shape limit with
     | error e => simp [h1] at h
     | ok chunks =>
